@@ -28,6 +28,18 @@ def main():
     fcntl.flock(lk, fcntl.LOCK_EX)          # one isolated mutant run at a time (they share the scratch tree)
     repo = os.path.join(root, "repo")
     har = os.path.join(root, "harness")
+    full = os.environ.get("VERIF_MUTISO_FULL") == "1" or any(ln.startswith("+++ b/cli/") for ln in open(patch, errors="replace"))
+    if full:
+        # the patch touches the cli crate: copy the whole workspace and build the rink binary from the copy (c20.build_cli
+        # honours VERIF_REPO / VERIF_CLI_TARGET; c12 and c18 use c20's binary)
+        for sub in ("cli", "irc", "rink-js", "web", "docs"):
+            shutil.rmtree(os.path.join(repo, sub), ignore_errors=True)
+            if os.path.isdir(os.path.join(vlib.REPO, sub)):
+                shutil.copytree(os.path.join(vlib.REPO, sub), os.path.join(repo, sub),
+                                ignore=shutil.ignore_patterns("target", "node_modules"), copy_function=shutil.copy, symlinks=True)
+        for f in ("Cargo.toml", "Cargo.lock"):
+            shutil.copy(os.path.join(vlib.REPO, f), os.path.join(repo, f))
+        os.environ["VERIF_CLI_TARGET"] = os.path.join(root, "target-cli")
     for sub in ("core", "sandbox"):
         shutil.rmtree(os.path.join(repo, sub), ignore_errors=True)
         # plain copy (fresh modification times): cargo must notice every difference to the previous mutant
@@ -45,6 +57,8 @@ def main():
     shutil.copy(os.path.join(vlib.HARNESS, "Cargo.lock"), os.path.join(har, "Cargo.lock"))
     toml = open(os.path.join(vlib.HARNESS, "Cargo.toml")).read().replace('"/repo/', '"%s/' % repo)
     open(os.path.join(har, "Cargo.toml"), "w").write(toml)
+    if full:
+        vlib.REPO = repo
     vlib.HARNESS = har
     vlib.EVID = os.path.join(root, "evidence")
     vlib.REPLAYS = os.path.join(root, "replays")
